@@ -955,3 +955,175 @@ func ruleGRDnoQueryShortcut(w *World, r *Report) {
 	}
 	r.Cond(!bad, "GRD-no-query-shortcut", "Engine.searchWithFusion:no-return-decided-by-the-query-values", pos, "no success return before the vector search depends on the elements of the query vector", "searchWithFusion returns without searching on a branch decided by the values of the query vector (an 'all zeros means nothing to search' shortcut): a k-NN query at the origin of a Euclidean index, or the retrieval of a stored zero vector by its own value, returns nothing through VSearch and VSearchGraph")
 }
+
+// ---------------------------------------------------------------------------------------------------------------
+// GRD-shardhash: the shard of a graph node is part of the snapshot layout.
+// DB.LoadFromSnapshot puts shard i of the file back into shard i; look-ups go to GetShardIndex(id). A build whose
+// GetShardIndex differs from the one that wrote the snapshot looks for every node in the wrong shard: the whole graph
+// of an existing data directory is invisible after the upgrade, and re-linking creates second copies. (A constant of
+// the persisted format, like the BM25 constants and the precision table: two accepted spellings of one function.)
+// ---------------------------------------------------------------------------------------------------------------
+func ruleGRDshardhash(w *World, r *Report) {
+	r.Doc("GRD-shardhash", "unless DB.LoadFromSnapshot re-places the restored graph nodes by GetShardIndex, GetShardIndex is 32-bit FNV-1a over the BYTES of the id, reduced to the shard count: hash/fnv's New32a fed with []byte(id), or the explicit loop — offset basis 2166136261 and, per byte (a uint8 value, not a rune), xor first, then multiply by 16777619", 1)
+	fi := w.Func("pkg/core", "GetShardIndex")
+	restore := w.Func("pkg/core", "DB.LoadFromSnapshot")
+	if fi == nil || restore == nil {
+		r.Und("GRD-shardhash", "anchor:GetShardIndex/DB.LoadFromSnapshot", "", "anchor lost")
+		return
+	}
+	fn := w.SSAFunc(fi.Obj)
+	rfn := w.SSAFunc(restore.Obj)
+	for _, f := range append(append([]*ssa.Function{rfn}, closuresOf(rfn)...), w.extractedHelpers(rfn)...) {
+		if len(findInstrs(f, callsTo(fi.Obj))) > 0 {
+			r.Ok("GRD-shardhash", "GetShardIndex:the-function-the-snapshots-were-written-with", w.Pos(fi.Decl.Pos()), "LoadFromSnapshot places restored nodes by GetShardIndex: the layout of the file does not depend on the hash")
+			return
+		}
+	}
+	why := ""
+	// form A: hash/fnv
+	usesLib, libOK := false, false
+	for _, b := range fn.Blocks {
+		for _, in := range b.Instrs {
+			c, ok := in.(*ssa.Call)
+			if !ok {
+				continue
+			}
+			if o := calleeObj(&c.Call); o != nil && o.Pkg() != nil && strings.HasPrefix(o.Pkg().Path(), "hash/") {
+				usesLib = true
+				if o.Pkg().Path() == "hash/fnv" && o.Name() == "New32a" {
+					libOK = true
+				} else if o.Pkg().Path() != "hash/fnv" || strings.HasPrefix(o.Name(), "New") {
+					why = "the hash is " + o.Pkg().Path() + "." + o.Name() + ", not fnv.New32a"
+				}
+			}
+			if c.Call.IsInvoke() && c.Call.Method.Name() == "Write" && len(c.Call.Args) == 1 {
+				cv, ok := c.Call.Args[0].(*ssa.Convert)
+				if _, isParam := func() (ssa.Value, bool) {
+					if !ok {
+						return nil, false
+					}
+					p, isP := cv.X.(*ssa.Parameter)
+					return p, isP
+				}(); !isParam {
+					why = "the hasher is not fed with []byte(id)"
+				}
+			}
+		}
+	}
+	ok := false
+	if usesLib {
+		ok = libOK && why == ""
+	} else {
+		// form B: h = phi(basis, (h ^ uint32(byte)) * prime)
+		why = "no FNV-1a accumulator found (a phi that starts at 2166136261 and is updated as (h ^ byte) * 16777619)"
+		for _, b := range fn.Blocks {
+			for _, in := range b.Instrs {
+				p, isPhi := in.(*ssa.Phi)
+				if !isPhi {
+					continue
+				}
+				basis := false
+				var upd ssa.Value
+				for _, e := range p.Edges {
+					if k, isK := constInt(stripConv(e)); isK && k == 2166136261 {
+						basis = true
+					} else {
+						upd = e
+					}
+				}
+				if !basis || upd == nil {
+					continue
+				}
+				mul, isMul := upd.(*ssa.BinOp)
+				if !isMul || mul.Op != token.MUL {
+					why = "the accumulator is not updated by a multiplication as its LAST step (FNV-1a xors the byte in first and multiplies afterwards; multiply-then-xor is FNV-1, another function)"
+					continue
+				}
+				x, k := mul.X, mul.Y
+				if _, isK := constInt(stripConv(x)); isK {
+					x, k = k, x
+				}
+				if kv, isK := constInt(stripConv(k)); !isK || kv != 16777619 {
+					why = "the multiplier is not the 32-bit FNV prime 16777619"
+					continue
+				}
+				xor, isXor := x.(*ssa.BinOp)
+				if !isXor || xor.Op != token.XOR {
+					why = "the value multiplied by the prime is not (h ^ byte)"
+					continue
+				}
+				other := xor.Y
+				if xor.Y == ssa.Value(p) {
+					other = xor.X
+				} else if xor.X != ssa.Value(p) {
+					why = "the xor does not combine the accumulator with the next byte"
+					continue
+				}
+				src := stripConv(other)
+				bt, isBasic := src.Type().Underlying().(*types.Basic)
+				if !isBasic || bt.Kind() != types.Uint8 {
+					why = "the value xored in is a " + src.Type().String() + ", not a byte: ranging over the string yields runes, so every id that is not pure ASCII (or not valid UTF-8) hashes differently from hash/fnv"
+					continue
+				}
+				ok, why = true, ""
+			}
+		}
+	}
+	r.Cond(ok, "GRD-shardhash", "GetShardIndex:the-function-the-snapshots-were-written-with", w.Pos(fi.Decl.Pos()), "32-bit FNV-1a over the bytes of the id", "GetShardIndex is no longer the FNV-1a-over-bytes function existing snapshots were written with ("+why+"), and DB.LoadFromSnapshot restores graph shards by position: after an upgrade the nodes of an existing data directory sit in shards nobody looks in — their edges, weights, properties and history are invisible, and linking them again creates second copies")
+}
+
+// ---------------------------------------------------------------------------------------------------------------
+// CDC-15 (clause): the timestamp is the identity of a link/unlink record (that is what makes replay idempotent), so the
+// replay must not date two different records alike: a timestamp it has to make up is made up per record.
+// ---------------------------------------------------------------------------------------------------------------
+func ruleCDC15c(w *World, r *Report) {
+	r.Doc("CDC-15c", "every timestamp that Engine.replayAOF (or a helper extracted from it) hands to DB.AddEdge / DB.RemoveEdge is either taken from the record, or a clock reading made inside the frame loop — per record. DB.AddEdge / DB.RemoveEdge treat an edge version created/ended at exactly the given timestamp as 'this record has been applied already': one clock reading for the whole replay makes the repair of a second VDEL of the same id (delete, re-add, re-link, delete) look like a re-application, and the deleted node keeps its edges", 2)
+	fi := w.Func("pkg/engine", "Engine.replayAOF")
+	add, rem := w.FuncObj("pkg/core", "DB.AddEdge"), w.FuncObj("pkg/core", "DB.RemoveEdge")
+	if fi == nil || add == nil || rem == nil {
+		r.Und("CDC-15c", "anchor:Engine.replayAOF/DB.AddEdge/DB.RemoveEdge", "", "anchor lost")
+		return
+	}
+	top := w.SSAFunc(fi.Obj)
+	isClock := func(v ssa.Value) (*ssa.Call, bool) {
+		c, ok := v.(*ssa.Call)
+		if !ok {
+			return nil, false
+		}
+		o := calleeObj(&c.Call)
+		if o == nil || o.Pkg() == nil || o.Pkg().Path() != "time" {
+			return nil, false
+		}
+		return c, true
+	}
+	n := 0
+	for _, f := range append(append([]*ssa.Function{top}, closuresOf(top)...), w.extractedHelpers(top)...) {
+		k := 0
+		for _, in := range findInstrs(f, callsTo(add, rem)) {
+			c := in.(*ssa.Call)
+			ts := c.Call.Args[len(c.Call.Args)-1]
+			n++
+			k++
+			bad := ""
+			var at ssa.Instruction
+			for _, leaf := range arithLeaves(ts, 0) {
+				cl, ok := isClock(leaf)
+				if !ok {
+					continue // parsed from the record, a constant 0, a parameter of a helper (called per record)
+				}
+				if cl.Parent() == top && innermostLoop(top, cl.Block()) == nil {
+					bad = "the clock is read once, outside the frame loop"
+					at = cl
+				}
+			}
+			wit := []ssa.Instruction{}
+			if at != nil {
+				wit = append(wit, at)
+			}
+			r.Cond(bad == "", "CDC-15c", fmt.Sprintf("%s:%s#%d:timestamp-per-record", fnKey(f), shortName(calleeObj(&c.Call)), k), w.Pos(c.Pos()), "the timestamp comes from the record or from a clock reading inside the loop", "replay dates this edge change with a timestamp shared by the whole replay ("+bad+"): the edge store takes a version that already ends (or begins) at exactly that timestamp for this very record having been applied before, and skips the change — after delete, re-add, re-link, delete of one id, a restart that has to repair the second delete leaves the node's edges alive in both directions", w.witness(wit)...)
+		}
+	}
+	if n == 0 {
+		r.Und("CDC-15c", "sites", "", "replayAOF no longer calls DB.AddEdge / DB.RemoveEdge (analysis lost its anchors)")
+	}
+}
